@@ -23,6 +23,12 @@ func (m *Meta) SetRelativateExpiry(seconds int64) {
 	if seconds >= 0 {
 		m.Deleted = -seconds
 	}
+	// Start the TTL right away. Update() only derives the absolute expiry from
+	// a TTL that is already set, and callers usually update the metadata before
+	// they change it (eg. Interface.SetRelativateExpiry, Options.Apply).
+	if seconds > 0 {
+		m.Expires = time.Now().Unix() + seconds
+	}
 }
 
 // GetAbsoluteExpiry returns the absolute expiry time.
